@@ -79,13 +79,19 @@ Decrease(k, req, wd, cap, cost, forceFull, liq) ==
 Move(np) == /\ np # price /\ price' = np /\ removed' = 0 /\ UNCHANGED <<ps, oi, oit, col>>
             /\ Step([op |-> "price", imin |-> np, lmin |-> np])
 
+(* decrease requests: <<requested size, collateral withdrawal, cap flag, cost, forced full close>> *)
+Requests(k) ==
+  LET z == ps[k].size IN
+  { <<0, 2, FALSE, 0, FALSE>>,                                   \* collateral-only withdrawal
+    <<1, 0, FALSE, 0, FALSE>>, <<1, 0, FALSE, 3, FALSE>>,         \* rounds the token delta to zero / to everything
+    <<z \div 2, 0, FALSE, 0, FALSE>>, <<z \div 2, 2, FALSE, 3, FALSE>>,
+    <<z \div 2, 0, FALSE, 0, TRUE>>,                              \* promoted for collateral reasons
+    <<z, 0, FALSE, 3, FALSE>>, <<z, 2, FALSE, 0, FALSE>>,          \* full close
+    <<z + 5, 0, TRUE, 0, FALSE>>, <<z + 5, 0, FALSE, 0, FALSE>> } \* capped / rejected
 Next ==
-  \/ \E k \in 1..3, dusd \in {0, 15, 47}, inc \in {0, 4}, cost \in {0, 1} : Increase(k, dusd, inc, cost)
-  \/ \E k \in 1..3 :
-       \E req \in {0, 1, 3} \cup {ps[k].size \div 2, ps[k].size - 1, ps[k].size, ps[k].size + 5},
-          wd \in {0, 2}, cap \in BOOLEAN, cost \in {0, 1, 3}, ff \in BOOLEAN :
-          req >= 0 /\ Decrease(k, req, wd, cap, cost, ff, FALSE)
-  \/ \E k \in 1..3, cost \in {0, 5} : Decrease(k, ps[k].size, 0, FALSE, cost, FALSE, TRUE)
+  \/ \E k \in 1..3, dusd \in {0, 15, 47}, ic \in {<<0, 0>>, <<4, 1>>} : Increase(k, dusd, ic[1], ic[2])
+  \/ \E k \in 1..3 : \E r \in Requests(k) : Decrease(k, r[1], r[2], r[3], r[4], r[5], FALSE)
+  \/ \E k \in 1..3 : Decrease(k, ps[k].size, 0, FALSE, 5, FALSE, TRUE)
   \/ \E np \in Prices : Move(np)
 Spec == Init /\ [][Next]_vars
 
